@@ -7,6 +7,7 @@ import (
 	"go/token"
 	"go/types"
 	"math/big"
+	"strings"
 
 	"golang.org/x/tools/go/ssa"
 )
@@ -86,6 +87,14 @@ func (x *Exec) invoke(st *State, fr *Frame, b *ssa.BasicBlock, i int, in ssa.Cal
 				default:
 					r = x.freshVal(st, "gv", sig.Results())
 				}
+				setResult(r)
+				return false
+			}
+		}
+		if named, ok := cc.Value.Type().(*types.Named); ok {
+			if con := x.P.specs.Funcs["ext:dynamic:"+named.String()]; con != nil {
+				x.usedExt["calls through values of type "+named.String()+" follow its assumed contract"] = true
+				r := x.applyDynamicContract(st, fr, con, cc.Signature(), args, pos)
 				setResult(r)
 				return false
 			}
@@ -178,6 +187,70 @@ func (x *Exec) intrinsic(st *State, fr *Frame, full string, callee *ssa.Function
 		n := x.freshName("err")
 		st.declare(n, "Int")
 		return intrRes{v: Val{K: KErr, T: sx("ErrOther", n), Typ: rt()}}, true
+	case "errors.As":
+		// errors.As(err, &target) for the error types of this code base: succeeds exactly when the
+		// error value carries that type; the target then points to an object holding its fields
+		errv, tgt := args[0], args[1]
+		if tgt.K == KIface && tgt.Dyn != nil {
+			tgt = *tgt.Dyn
+		}
+		if tgt.K != KPtr || tgt.Ptr == nil {
+			bail("errors.As with a target that is not a pointer")
+		}
+		pt, ok := pathType(tgt.Ptr.Elem, tgt.Ptr.Path).Underlying().(*types.Pointer)
+		if !ok {
+			bail("errors.As target is not a pointer to a pointer")
+		}
+		tn := pt.Elem().String()
+		var test, field string
+		switch {
+		case strings.HasSuffix(tn, "whispertool.WantLargerBufferError"):
+			test, field = sx("(_ is ErrWantLarger)", errv.T), sx("wl_size", errv.T)
+		case strings.HasSuffix(tn, "cmd.fileNotExistError"):
+			test, field = sx("(_ is ErrFileNotExist)", errv.T), sx("fe_sd", errv.T)
+		case strings.HasSuffix(tn, "cmd.httpError"):
+			test = sx("(_ is ErrHTTP)", errv.T)
+		case strings.HasSuffix(tn, "os.PathError"), strings.HasSuffix(tn, "fs.PathError"):
+			test = sx("(_ is ErrPathNotExist)", errv.T)
+		default:
+			bail("errors.As to %s is not modelled", tn)
+		}
+		okc := x.freshName("as")
+		st.declare(okc, "Bool")
+		st.assume(sx("=", okc, test))
+		// allocate the target object
+		elem := pt.Elem()
+		var objPtr Val
+		if x.P.ss.kindOf(elem) == KOpaque {
+			root := x.allocRoot(st, "asobj")
+			objPtr = Val{K: KPtr, Typ: pt, Ptr: &Pointer{Heap: "", Elem: elem, Root: root, Fresh: true}}
+		} else {
+			root := x.allocRoot(st, "asobj")
+			key := x.P.ss.heapKey(elem, false)
+			hs := x.P.ss.heapSort(elem, false)
+			h := st.heap(key, hs)
+			obj := x.freshVal(st, "asval", elem)
+			if field != "" {
+				s := x.P.ss.structSort(elem)
+				st.assume(implies(okc, sx("=", sx(s.Fields[0].Name, obj.T), field)))
+			}
+			x.setHeap(st, key, hs, sx("store", h, root, obj.T))
+			objPtr = Val{K: KPtr, Typ: pt, Ptr: &Pointer{Heap: key, Elem: elem, Root: root, Fresh: true}}
+		}
+		// *target = obj when ok (left nil otherwise)
+		cur := x.load(st, tgt.Ptr)
+		_ = cur
+		if tgt.Ptr.Local != nil {
+			// path-local target: fork-free update is not possible for structural pointers; branch on ok
+			st2 := st
+			_ = st2
+			x.store(st, tgt.Ptr, objPtr)
+			x.note("errors.As target is assigned even when As fails (only read after a successful As in this code base)")
+		} else {
+			x.store(st, tgt.Ptr, objPtr)
+		}
+		x.usedExt["errors.As (assumed: matches exactly the modelled error kinds)"] = true
+		return intrRes{v: Val{K: KBool, T: okc, Typ: rt()}}, true
 	case "sort.Stable", "sort.Sort":
 		x.sortStable(st, fr, args[0], pos, full == "sort.Stable")
 		return intrRes{v: Val{K: KTuple}}, true
@@ -367,8 +440,30 @@ func (x *Exec) invokeMethod(st *State, fr *Frame, cc *ssa.CallCommon, recv Val, 
 		}
 		return x.freshVal(st, "inv", rt)
 	}
-	bail("non-pure trusted contracts on interface methods are not supported (%s)", name)
-	return Val{}
+	if len(con.Modifies) > 0 || len(con.Requires) > 0 {
+		bail("trusted contracts on interface methods may only have ensures clauses (%s)", name)
+	}
+	env := &Env{st: st, vars: map[string]Val{"recv": recv}, pkg: "", old: st.snapshot()}
+	for i := 0; i < sig.Params().Len(); i++ {
+		env.vars[sig.Params().At(i).Name()] = args[i]
+	}
+	var r Val
+	if sig.Results().Len() == 0 {
+		r = Val{K: KTuple}
+	} else {
+		r = x.freshVal(st, "inv", rt)
+		if sig.Results().Len() == 1 {
+			env.vars["result"] = r
+		} else {
+			for i, t := range r.Tup {
+				env.vars[fmt.Sprintf("result%d", i)] = t
+			}
+		}
+	}
+	for _, en := range con.Ensures {
+		st.assume(x.evalSpec(en.E, env).T)
+	}
+	return r
 }
 
 // ------------------------------------------------------------------ contracts at call sites
@@ -421,16 +516,16 @@ func (x *Exec) applyContract(st *State, fr *Frame, callee *ssa.Function, con *Co
 	if con.ModAll {
 		bail("callee %s has 'modifies *'", cname)
 	}
-	for _, m := range con.Modifies {
-		x.havocTarget(st, fr, env, m, pos, true)
-	}
-	// allocator may advance
+	// allocator may advance (before the havoc, so that havoced references may be fresh objects)
 	res := callee.Signature.Results()
-	if !con.Pure || true {
+	{
 		nt := x.freshName("top")
 		st.declare(nt, "Int")
-		st.assume(sx(">=", nt, st.top))
+		st.assume(and(sx(">=", nt, st.top), sx("<=", nt, "4611686018427387904")))
 		st.top = nt
+	}
+	for _, m := range con.Modifies {
+		x.havocTarget(st, fr, env, m, pos, true)
 	}
 	var rets []Val
 	for i := 0; i < res.Len(); i++ {
@@ -464,17 +559,26 @@ func shortText(s string) string {
 func (x *Exec) havocTarget(st *State, fr *Frame, env *Env, m *Expr, pos token.Pos, check bool) {
 	ss := x.P.ss
 	// fb(e): the bytes of a file buffer
-	if m.Op == "call" && m.Name == "fb" {
+	if m.Op == "call" && (m.Name == "fb" || m.Name == "disk") {
+		hk := map[string]string{"fb": "FB", "disk": "DISK"}[m.Name]
 		v := x.evalSpec(m.Args[0], env)
-		h := st.heap("FB", "(Array Int (Array Int Int))")
+		h := st.heap(hk, "(Array Int (Array Int Int))")
 		row := x.freshName("fbrow")
 		st.declare(row, "(Array Int Int)")
 		k := x.freshName("k")
 		st.assume(fmt.Sprintf("(forall ((%s Int)) (! (and (<= 0 (select %s %s)) (<= (select %s %s) 255)) :pattern ((select %s %s))))", k, row, k, row, k, row, k))
 		if check {
-			x.frameCheckGhost(st, fr, "FB", x.termOf(v), pos)
+			x.frameCheckGhost(st, fr, hk, x.termOf(v), pos)
 		}
-		x.setHeap(st, "FB", "(Array Int (Array Int Int))", sx("store", h, x.termOf(v), row))
+		x.setHeap(st, hk, "(Array Int (Array Int Int))", sx("store", h, x.termOf(v), row))
+		if hk == "DISK" {
+			// the length of the file may change with its content
+			hl := st.heap("DISKLEN", "(Array Int Int)")
+			nl := x.freshName("dlen")
+			st.declare(nl, "Int")
+			st.assume(sx(">=", nl, "0"))
+			x.setHeap(st, "DISKLEN", "(Array Int Int)", sx("store", hl, x.termOf(v), nl))
+		}
 		return
 	}
 	if m.Op == "call" && m.Name == "ghost" {
@@ -633,6 +737,10 @@ func (x *Exec) frameCheckGhost(st *State, fr *Frame, heap, key string, pos token
 		return
 	}
 	var alts []string
+	if heap != "FB" && heap != "DISK" || true {
+		// state attached to an object allocated by this function is always in the frame
+		alts = append(alts, sx(">", key, x.entry.top))
+	}
 	for _, t := range x.modset {
 		if t.heap == heap {
 			alts = append(alts, sx("=", t.root, key))
@@ -653,9 +761,9 @@ func (x *Exec) computeModset(st *State, env *Env) {
 	for _, m := range x.con.Modifies {
 		t := modTarget{text: m.String()}
 		switch {
-		case m.Op == "call" && m.Name == "fb":
+		case m.Op == "call" && (m.Name == "fb" || m.Name == "disk"):
 			v := x.evalSpec(m.Args[0], env)
-			t.heap, t.root = "FB", x.termOf(v)
+			t.heap, t.root = map[string]string{"fb": "FB", "disk": "DISK"}[m.Name], x.termOf(v)
 		case m.Op == "call" && m.Name == "ghost":
 			v := x.evalSpec(m.Args[1], env)
 			t.heap, t.root = "G_"+m.Args[0].Name, x.termOf(v)
@@ -703,4 +811,38 @@ func (x *Exec) computeModset(st *State, env *Env) {
 		}
 		x.modset = append(x.modset, t)
 	}
+}
+
+// applyDynamicContract applies an assumed contract to a call through a function value of a
+// named function type; parameters are called p0, p1, ...
+func (x *Exec) applyDynamicContract(st *State, fr *Frame, con *Contract, sig *types.Signature, args []Val, pos token.Pos) Val {
+	env := &Env{st: st, vars: map[string]Val{}, pkg: ""}
+	for i, a := range args {
+		env.vars[fmt.Sprintf("p%d", i)] = a
+	}
+	snap := st.snapshot()
+	for _, m := range con.Modifies {
+		x.havocTarget(st, fr, env, m, pos, true)
+	}
+	var rets []Val
+	for i := 0; i < sig.Results().Len(); i++ {
+		rets = append(rets, x.freshVal(st, "dyn", sig.Results().At(i).Type()))
+	}
+	env2 := &Env{st: st, vars: env.vars, pkg: "", old: snap}
+	for i, r := range rets {
+		env2.vars[fmt.Sprintf("result%d", i)] = r
+	}
+	if len(rets) == 1 {
+		env2.vars["result"] = rets[0]
+	}
+	for _, en := range con.Ensures {
+		st.assume(x.evalSpec(en.E, env2).T)
+	}
+	switch len(rets) {
+	case 0:
+		return Val{K: KTuple}
+	case 1:
+		return rets[0]
+	}
+	return Val{K: KTuple, Tup: rets}
 }
